@@ -180,9 +180,19 @@ def facts_at(b, block, evaluated_before=False):
         if vnames is None:
             # a direct match on the local: variant index -> names via the aggregates that define it
             names = set()
-            for (bi, si, kind, rv) in b.defs().get(src[1], []):
-                if kind == "assign" and rv["r"] == "agg" and rv.get("agg") == "adt" and rv.get("variant") == f[2] and rv.get("vname"):
-                    names.add(rv["vname"])
+            todo, seen_l = [src[1]], set()
+            while todo:
+                l0 = todo.pop()
+                if l0 in seen_l:
+                    continue
+                seen_l.add(l0)
+                for (bi, si, kind, rv) in b.defs().get(l0, []):
+                    if kind == "assign" and rv["r"] == "agg" and rv.get("agg") == "adt" and rv.get("variant") == f[2] and rv.get("vname"):
+                        names.add(rv["vname"])
+                    elif kind == "assign" and rv["r"] == "use":
+                        q = rv["o"].get("m") or rv["o"].get("c")
+                        if q is not None and not q["p"]:
+                            todo.append(q["l"])
             if len(names) != 1:
                 continue
             vnames = tuple(names)
@@ -451,3 +461,55 @@ def resolve_nonzero_vars(b, block, term):
             return tuple(walk(x) if isinstance(x, tuple) else x for x in t)
         return tuple(walk(x) for x in t)
     return walk(term), extra
+
+
+def reach_on_error_path(b, start):
+    """Blocks reachable from `start` (a block that builds an error value) when the error is followed: an `Err` / `None` aggregate
+    built on the way marks its local as holding an error; a switch on the discriminant of such a local -- or of `Try::branch` of
+    it -- takes only the error / Break edge. Everything else is plain reachability. Used to ask "can a refusal still reach the
+    success value?" when the refusal sits in a helper that was inlined (its `return Err(..)` continues into the caller's `?`)."""
+    err = set()
+    seen, stack = set(), [start]
+    while stack:
+        x = stack.pop()
+        if x in seen:
+            continue
+        seen.add(x)
+        blk = b.blocks[x]
+        dsrc = {}
+        for st in blk["stmts"]:
+            if st["s"] != "assign" or st["lhs"]["p"]:
+                continue
+            rv = st["rv"]
+            l = st["lhs"]["l"]
+            if rv["r"] == "agg" and rv.get("agg") == "adt" and rv.get("vname") in ("Err", "None") and rv.get("def") in ("std::result::Result", "std::option::Option"):
+                err.add(l)
+            elif rv["r"] == "use":
+                q = rv["o"].get("m") or rv["o"].get("c")
+                if q is not None and q["l"] in err and all(isinstance(e, dict) and ("down" in e or "f" in e) for e in q["p"]):
+                    err.add(l)
+                elif l in err:
+                    err.discard(l)
+            elif rv["r"] == "discr":
+                dsrc[l] = rv["p"]["l"] if not rv["p"]["p"] else None
+            elif l in err:
+                err.discard(l)
+        t = blk["term"]
+        nxt = b.succ(x)
+        if t["t"] == "call" and not t["dest"]["p"] and t.get("target") is not None:
+            q = (t["args"][0].get("m") or t["args"][0].get("c")) if t["args"] else None
+            d = t["callee"].get("def")
+            if d in ("std::ops::Try::branch", "std::ops::FromResidual::from_residual") and q is not None and q["l"] in err:
+                err.add(t["dest"]["l"])
+            elif t["dest"]["l"] in err:
+                err.discard(t["dest"]["l"])
+        elif t["t"] == "switch":
+            dq = t["discr"].get("m") or t["discr"].get("c")
+            src = dsrc.get(dq["l"]) if dq is not None and not dq["p"] else None
+            if src in err:
+                one = [d for v, d in t["targets"] if int(v) == 1]
+                # Result::Err and ControlFlow::Break have discriminant 1; Option::None has 0
+                zero = [d for v, d in t["targets"] if int(v) == 0]
+                nxt = one or ([t["otherwise"]] if not zero else [t["otherwise"]])
+        stack.extend(nxt)
+    return seen
